@@ -37,6 +37,8 @@ type c13Case struct {
 	// recipients is abandoned ("rset": RSET after a chunk; "lhlo": new LHLO),
 	// its backend having set statuses for some recipients already.
 	Prior string `json:"prior,omitempty"`
+	// MultiLine: every negative status (and the return value) has several lines
+	MultiLine bool `json:"multi_line,omitempty"`
 }
 
 func c13Accepted(c c13Case) []string {
@@ -130,12 +132,19 @@ func c13Run(c c13Case) Verdict {
 	}
 	if c.RetErr {
 		plan.Result = harness.Decision{Kind: "smtp", Code: 451, Enh: [3]int{4, 3, 0}, Msg: "return-value-error"}
+		if c.MultiLine {
+			plan.Result.Msg += "\nsecond line of the return value"
+		}
 	}
 	if c.PerRcpt {
 		for si, s := range c.Status {
 			d := harness.Decision{}
 			if !s.OK {
 				d = harness.Decision{Kind: "smtp", Code: 550 + si, Enh: [3]int{5, 2, si}, Msg: fmt.Sprintf("status-call-%d", si)}
+				if c.MultiLine {
+					// one reply all the same, however many lines it has
+					d.Msg += "\nsecond line of the status\nthird line"
+				}
 			}
 			plan.Status = append(plan.Status, harness.StatusCall{Rcpt: acc[s.Occ], D: d, AfterRead: s.AfterRead})
 		}
@@ -306,6 +315,15 @@ func c13Run(c c13Case) Verdict {
 	if c.Prior != "" {
 		v.Classes = append(v.Classes, "after_abandoned_transfer")
 	}
+	if c.MultiLine {
+		v.Classes = append(v.Classes, "multi_line_statuses")
+	}
+	for _, a := range acc {
+		if a == "A@x" && (seen["a@x"] || contains(acc, "a@x")) {
+			v.Classes = append(v.Classes, "recipients_differing_in_case")
+			break
+		}
+	}
 	n := len(acc)
 	if c.Panic != "" {
 		// A panicking backend: the statement only demands that nothing hangs
@@ -378,7 +396,8 @@ func c13Gen(t *rapid.T) c13Case {
 	c := c13Case{}
 	n := rapid.IntRange(1, 4).Draw(t, "nrcpt")
 	for i := 0; i < n; i++ {
-		c.Rcpts = append(c.Rcpts, c13Rcpt{Addr: rapid.SampledFrom([]string{"a@x", "b@x"}).Draw(t, "addr"), Reject: rapid.IntRange(0, 4).Draw(t, "reject") == 0})
+		// (A@x and a@x are different recipients: local parts are case-sensitive)
+		c.Rcpts = append(c.Rcpts, c13Rcpt{Addr: rapid.SampledFrom([]string{"a@x", "b@x", "a@x", "b@x", "A@x"}).Draw(t, "addr"), Reject: rapid.IntRange(0, 4).Draw(t, "reject") == 0})
 	}
 	if len(c13Accepted(c)) == 0 {
 		c.Rcpts[0].Reject = false
@@ -415,6 +434,7 @@ func c13Gen(t *rapid.T) c13Case {
 		}
 	}
 	c.Pipeline = rapid.Bool().Draw(t, "pipeline")
+	c.MultiLine = rapid.IntRange(0, 3).Draw(t, "multi_line") == 0
 	c.Prior = rapid.SampledFrom([]string{"", "", "", "rset", "lhlo"}).Draw(t, "prior")
 	return c
 }
